@@ -59,6 +59,18 @@ pub fn rewrap(ev: &Event, h: Option<[u8; 32]>) -> Result<Event, AdvError> {
     wrapper_with_content(&ev.content, hh, ev.created_at.as_secs())
 }
 
+/// [`rewrap`] with the new wrapper id on a chosen side of the original's (MIP-03 breaks timestamp ties by id,
+/// so which of the two sorts first must not be left to chance)
+pub fn rewrap_ordered(ev: &Event, h: Option<[u8; 32]>, smaller_id: bool) -> Result<Event, AdvError> {
+    for _ in 0..50_000 {
+        let re = rewrap(ev, h)?;
+        if (re.id < ev.id) == smaller_id {
+            return Ok(re);
+        }
+    }
+    Err(AdvError("no wrapper id on the requested side".into()))
+}
+
 pub struct Mls<'a> {
     pub c: &'a Client,
     pub gid: GroupId,
@@ -103,6 +115,8 @@ pub enum CommitContent {
     /// add + rename in one commit
     Mixed,
     Psk,
+    /// group-context-extensions commit whose 0xF2EE extension is exactly these bytes
+    RawGroupData(Vec<u8>),
 }
 
 /// Build a commit directly with the OpenMLS commit builder on `c` (left pending on c) and wrap it.
@@ -145,6 +159,12 @@ pub fn raw_commit(c: &Client, gid: &GroupId, content: &CommitContent, pk_of: &dy
             CommitContent::Rename(n) => {
                 let gg = m.load_mls_group(gid).map_err(ae("load"))?.unwrap();
                 let exts = ext_with(&gg, &|d| d.name = n.clone())?;
+                b = b.propose_group_context_extensions(exts).map_err(ae("gce"))?;
+            }
+            CommitContent::RawGroupData(bytes) => {
+                let gg = m.load_mls_group(gid).map_err(ae("load"))?.unwrap();
+                let mut exts = gg.extensions().clone();
+                exts.add_or_replace(Extension::Unknown(0xF2EE, UnknownExtension(bytes.clone()))).map_err(ae("add_or_replace"))?;
                 b = b.propose_group_context_extensions(exts).map_err(ae("gce"))?;
             }
             CommitContent::Relay(u) => {
